@@ -5,6 +5,8 @@
 package filedrv
 
 import (
+	"bufio"
+	"bytes"
 	"fmt"
 	"io"
 	"reflect"
@@ -20,9 +22,27 @@ const (
 	ModeOneByte  = 1 // Read returns at most one byte
 	ModeDataEOF  = 2 // the last Read returns the data together with io.EOF
 	NumModes     = 3
+	// Read additionally accepts two modes that hand ReadFile a standard-library reader type, with all the
+	// optional methods those types have (Next, WriteTo, Peek, Discard, ...): they are legal avro.Readers too
+	ModeBytesBuffer = 3 // *bytes.Buffer
+	ModeBufio16     = 4 // *bufio.Reader with a 16-byte buffer (short reads at every refill boundary)
+	NumReadModes    = 5
 )
 
-func ModeName(m int) string { return [...]string{"full", "1-byte", "data+EOF"}[m] }
+func ModeName(m int) string {
+	return [...]string{"full", "1-byte", "data+EOF", "*bytes.Buffer", "*bufio.Reader(16)"}[m]
+}
+
+// NewReader returns the reader for a mode of Read.
+func NewReader(data []byte, mode int) avro.Reader {
+	switch mode {
+	case ModeBytesBuffer:
+		return bytes.NewBuffer(append([]byte(nil), data...))
+	case ModeBufio16:
+		return bufio.NewReaderSize(&Reader{Data: data, Mode: ModeFull}, 16)
+	}
+	return &Reader{Data: data, Mode: mode}
+}
 
 type Reader struct {
 	Data []byte
@@ -88,7 +108,7 @@ func Read(data []byte, mode int, t reflect.Type, ptr bool, failAt int, cbErr err
 		out = reflect.New(t).Elem().Interface()
 	}
 	n := 0
-	res.Err = avro.ReadFile(&Reader{Data: data, Mode: mode}, out, func(val unsafe.Pointer, rb *avro.ResourceBank) error {
+	res.Err = avro.ReadFile(NewReader(data, mode), out, func(val unsafe.Pointer, rb *avro.ResourceBank) error {
 		v := reflect.NewAt(t, val).Elem()
 		res.Records = append(res.Records, gv.DeepCopy(v))
 		// the idiom of ReadFile's documentation: records = append(records, *(*record)(val)) — a plain struct
@@ -101,6 +121,34 @@ func Read(data []byte, mode int, t reflect.Type, ptr bool, failAt int, cbErr err
 			return cbErr
 		}
 		n++
+		return nil
+	})
+	return res
+}
+
+// ReadReusing reads data twice into ONE caller-owned *T: a first pass that the callback abandons with an error at
+// record index stopAt (a lookup), then a complete pass. The result is that of the second pass: what the first
+// pass left behind in the destination must not show.
+func ReadReusing(data []byte, mode int, t reflect.Type, stopAt int) (res Result) {
+	defer func() {
+		if r := recover(); r != nil {
+			res.Panic = r
+			res.Site = panicSite()
+		}
+	}()
+	dst := reflect.New(t)
+	errStop := fmt.Errorf("found what I was looking for")
+	n := 0
+	avro.ReadFile(NewReader(data, mode), dst.Interface(), func(val unsafe.Pointer, rb *avro.ResourceBank) error {
+		if n == stopAt {
+			return errStop
+		}
+		n++
+		return nil
+	})
+	res.Err = avro.ReadFile(NewReader(data, mode), dst.Interface(), func(val unsafe.Pointer, rb *avro.ResourceBank) error {
+		v := reflect.NewAt(t, val).Elem()
+		res.Records = append(res.Records, gv.DeepCopy(v))
 		return nil
 	})
 	return res
